@@ -370,6 +370,100 @@ impl C05 {
     }
 }
 
+impl C05 {
+    /// Lines at the line limit, through the real entry path (Runtime::enter), LIST text and the
+    /// SAVE -> LOAD path (Listing::load_str): whatever was accepted must load again.
+    fn long_line_case(&self, rng: &mut Rng, ctx: &mut Ctx) {
+        use crate::drive::{Session, Stop};
+        let num = *rng.pick(&[1u32, 10, 100, 1000, 65529]);
+        let kind = rng.usize(6);
+        let target = 1018 + rng.usize(10); // typed length in bytes: 1018..1027 around the 1024 limit
+        let head = match kind {
+            0 => format!("{} REM ", num),
+            1 => format!("{} PRINT \"", num),
+            2 => format!("{} A=1", num),
+            3 => format!("{} '", num),
+            4 => format!("{} ?", num),   // `?` lists as PRINT: the listed text is longer than the typed one
+            _ => format!("{} A=7MOD3", num), // lists with blanks inserted around MOD
+        };
+        let mut line = head.clone();
+        let unit = match kind {
+            0 | 3 => *rng.pick(&["x", "é", "REM ", "\""]),
+            1 => *rng.pick(&["x", "é", "→"]),
+            2 => "+1",
+            4 => ":?",
+            _ => "+7MOD3",
+        };
+        while line.len() + unit.len() <= target {
+            line.push_str(unit);
+        }
+        if kind == 1 && rng.coin() && line.len() < target {
+            line.push('"');
+        }
+        mon::journal(&line);
+        let mut s = Session::new();
+        s.drain(8);
+        let mark = s.mark();
+        s.enter(&line);
+        if s.drain(16) != Stop::Stopped {
+            ctx.violation("no-stop", "list:long:no-stop", "no return to the prompt", &line);
+            return;
+        }
+        let rejected = s.events_since(mark).iter().any(|e| matches!(e, crate::drive::Ev::Error(d, _, _) if d.contains("LINE BUFFER OVERFLOW")));
+        let listed = s.listing_text();
+        ctx.eval(&line, true);
+        ctx.count("long_lines_entered");
+        ctx.max("longest_line_accepted_bytes", if rejected { 0 } else { line.len() as u64 });
+        if line.len() > 1024 {
+            if !rejected || !listed.is_empty() {
+                ctx.violation("over-limit-accepted", "list:long:over-limit", &format!("a line of {} bytes was accepted", line.len()), &line);
+            }
+            return;
+        }
+        // a line whose listing (keywords in full, blanks between words) would exceed the limit may be
+        // refused when entered; a line that lists within the limit must be stored
+        let would_list = Line::new(&line).to_string().len();
+        if rejected && would_list > 1024 {
+            ctx.count("long_lines_refused_because_the_listing_would_exceed_the_limit");
+            return;
+        }
+        if rejected || listed.len() != 1 {
+            ctx.violation(
+                "within-limit-rejected",
+                "list:long:rejected",
+                &format!("a line of {} bytes (limit 1024) was not stored: listing {:?}", line.len(), listed.iter().map(|l| l.len()).collect::<Vec<_>>()),
+                &line,
+            );
+            return;
+        }
+        let t = &listed[0];
+        ctx.max("longest_listed_text_bytes", t.len() as u64);
+        let mut listing = Listing::default();
+        let expanded = t.len() > line.len();
+        match listing.load_str(t) {
+            Ok(()) => {
+                let back: Vec<String> = listing.lines().map(|l| l.to_string()).collect();
+                if back.len() != 1 || &back[0] != t {
+                    ctx.violation("load-changed", "list:long:load", &format!("saved text ({} bytes) loads as {:?}", t.len(), back.iter().map(|l| l.len()).collect::<Vec<_>>()), &line);
+                }
+            }
+            Err(e) => {
+                ctx.violation(
+                    "load-rejected",
+                    if expanded && t.len() > 1024 { "list:long:load-error:listing-longer-than-limit" } else { "list:long:load-error" },
+                    &format!(
+                        "a stored line typed with {} bytes lists / saves as {} bytes and cannot be loaded again: {}",
+                        line.len(),
+                        t.len(),
+                        e
+                    ),
+                    &line,
+                );
+            }
+        }
+    }
+}
+
 impl Prop for C05 {
     fn cases(&self, tier: Tier) -> u64 {
         match tier {
@@ -414,6 +508,9 @@ impl Prop for C05 {
             self.check_line(&format!("10 A={}", body), false, ctx);
             self.check_line(&format!("10 ?{}", body), false, ctx);
             return;
+        }
+        if idx % 40 == 39 {
+            return self.long_line_case(rng, ctx);
         }
         let o = Opts { data: rng.coin(), func: rng.coin(), tron: false, stop: true, max_lines: 20, input: rng.coin(), frac: rng.coin() };
         let p = gen::generate(rng, o);
